@@ -105,6 +105,7 @@ ITEMS = location_types() + budget_types() + error_types() + [
                  decreases='rest0.len() - out@.len()')}),
     # ---- the null tables (C06: "quoted scalars are never taken for null") ----
     dict(src='src/parse_scalars.rs', path='fn scalar_is_nullish', props=['C06', 'C05'],
+         bounded=dict(harness='bounded/scalar_tables.rs', items=[('src/parse_scalars.rs', 'fn scalar_is_nullish')], cfgs=['has_nullish']),
          rewrites=[(r'value\.is_empty\(\)', 'pl_str_is_empty(value)', None, 'R8'), (r'value == "~"', 'pl_str_eq(value, "~")', None, 'R8'),
                    (r'value\.eq_ignore_ascii_case\("null"\)', 'pl_str_eq_ci(value, "null")', None, 'R8')],
          proofs=[dict(at='start', text='lemma_plain_literals();')],
@@ -112,6 +113,7 @@ ITEMS = location_types() + budget_types() + error_types() + [
                   ('C06:quoted_scalars_are_never_null_like', '(*style is SingleQuoted || *style is DoubleQuoted) ==> !r')],
          canaries=['C06:null_like_is_exactly_plain_empty_tilde_or_null']),
     dict(src='src/parse_scalars.rs', path='fn scalar_is_nullish_for_option', props=['C06', 'C05'],
+         bounded=dict(harness='bounded/scalar_tables.rs', items=[('src/parse_scalars.rs', 'fn scalar_is_nullish_for_option')], cfgs=['has_nullish_opt']),
          rewrites=[(r'value\.is_empty\(\)', 'pl_str_is_empty(value)', None, 'R8'), (r'value == "~"', 'pl_str_eq(value, "~")', None, 'R8'),
                    (r'value\.eq_ignore_ascii_case\("null"\)', 'pl_str_eq_ci(value, "null")', None, 'R8')],
          proofs=[dict(at='start', text='lemma_plain_literals();')],
@@ -170,6 +172,7 @@ ITEMS = location_types() + budget_types() + error_types() + [
          canaries=['C05:a_sequence_ends_exactly_at_its_end_event_which_is_left_for_the_caller']),
     # ---- booleans (C06) ----
     dict(src='src/parse_scalars.rs', path='fn parse_yaml11_bool', props=['C06', 'C01'],
+         bounded=dict(harness='bounded/scalar_tables.rs', items=[('src/parse_scalars.rs', 'fn parse_yaml11_bool')], cfgs=['has_bool']),
          rewrites=[(r's\.trim\(\)', 'str_trim(s)', 1, 'R8'), (r't\.eq_ignore_ascii_case\(("\w+")\)', r'pl_str_eq_ci(t, \1)', None, 'R8'),
                    (r'Err\(format!\("invalid YAML 1\.1 bool: `\{\}`", s\)\)', 'Err(fmt_invalid_bool(s))', 1, 'R8')],
          proofs=[dict(at='start', text='lemma_bool_literals();')],
@@ -194,6 +197,7 @@ ITEMS = location_types() + budget_types() + error_types() + [
               Err(_) => true }''')],
         canaries=['C06:boolean_is_read_from_the_strict_or_the_yaml11_table_as_configured']),
     dict(src='src/parse_scalars.rs', path='fn leading_zero_decimal', props=['C06', 'C01'],
+         bounded=dict(harness='bounded/scalar_tables.rs', items=[('src/parse_scalars.rs', 'fn leading_zero_decimal')], cfgs=['has_lzd']),
          rewrites=[(r't\.trim\(\)', 'str_trim(t)', 1, 'R8'),
                    (r"s\.strip_prefix\(\['\+', '-'\]\)\.unwrap_or\(s\)", '(match ty_str_strip_sign(s) { Some(__v) => __v, None => s })', 1, 'R8+R18'),
                    (r"digits\.strip_prefix\('0'\)", "str_strip_prefix_char(digits, '0')", 1, 'R8'),
